@@ -48,10 +48,13 @@ type c16 struct {
 	hashes [c16Hashes]lntypes.Hash
 	idBase uint64
 	mu     sync.Mutex
+	wmu    sync.Mutex
 }
 
 func (c *c16) pf(format string, a ...interface{}) {
+	c.wmu.Lock()
 	fmt.Fprintf(c.w, format+"\n", a...)
+	c.wmu.Unlock()
 }
 
 // c16ErrName maps an error to a small enum by sentinel identity.
@@ -764,6 +767,114 @@ func (c *c16) genCase(wild bool) {
 	c.endCase()
 }
 
+
+// genConcCase: 2-4 goroutines issue operations on the same three payments
+// concurrently (monitor only: the answers depend on the schedule, so the
+// driver does not replay them on the model). Hashes 0 and 1 are initiated
+// before the goroutines start; every goroutine tries to initiate hash 2.
+// Goroutine g registers attempts with its own ids (g*16+n, on hash n%3),
+// amounts around a third to all of the payment amount so that the goroutines
+// compete for the remaining amount, and settles / fails attempts it registered
+// itself or (racing with the owner) the first attempts of another goroutine.
+// Lines are written in completion order and carry the goroutine number.
+func (c *c16) genConcCase() {
+	c.startCase("conc")
+	values := [c16Hashes]uint64{}
+	for h := 0; h < c16Hashes; h++ {
+		values[h] = []uint64{3, 10, 10, 1000, 1 << 40}[c.rng.Intn(5)]
+	}
+	c.pf("%s", c.opInit(0, values[0]))
+	c.pf("%s", c.opInit(1, values[1]))
+	nG := 2 + c.rng.Intn(3)
+	blinded := c.rng.Intn(4) == 0
+	seeds := make([]int64, nG)
+	for g := range seeds {
+		seeds[g] = c.rng.Int63()
+	}
+	var wg sync.WaitGroup
+	start := make(chan struct{})
+	for g := 0; g < nG; g++ {
+		wg.Add(1)
+		go func(g int) {
+			defer wg.Done()
+			<-start
+			rng := rand.New(rand.NewSource(seeds[g]))
+			tag := fmt.Sprintf("g=%d ", g)
+			c.pf("%s%s", tag, c.opInit(2, values[2]))
+			var mine [c16Hashes][]uint64 // ids this goroutine got admitted
+			next := uint64(g * 16)
+			nOps := 8 + rng.Intn(10)
+			for i := 0; i < nOps; i++ {
+				h := rng.Intn(c16Hashes)
+				v := values[h]
+				switch r := rng.Intn(100); {
+				case r < 55 && next < uint64(g*16+16):
+					id := next
+					next++
+					// the n-th registration of every goroutine goes
+					// to hash n%3, so that a racing goroutine can
+					// address the attempt through its own payment
+					h = int(id%16) % c16Hashes
+					v = values[h]
+					var amt uint64
+					switch rng.Intn(5) {
+					case 0:
+						amt = v
+					case 1:
+						amt = v/2 + 1
+					case 2:
+						amt = v / 2
+					case 3:
+						amt = v/3 + 1
+					default:
+						amt = 1
+					}
+					kind, total := "m", v
+					if blinded {
+						kind = "b"
+					}
+					line := c.opReg(h, id, amt, kind, 1, total, uint64(rng.Intn(3)))
+					c.pf("%s%s", tag, line)
+					if strings.Contains(line, "=> ok") {
+						mine[h] = append(mine[h], id)
+					}
+				case r < 83:
+					// resolve an attempt this goroutine got admitted
+					// or (racing with its owner) one of another
+					// goroutine's first attempts
+					var id uint64
+					if len(mine[h]) == 0 || rng.Intn(100) < 30 {
+						id = uint64(rng.Intn(nG)*16 + rng.Intn(5))
+						h = int(id%16) % c16Hashes
+					} else {
+						k := rng.Intn(len(mine[h]))
+						id = mine[h][k]
+						mine[h] = append(mine[h][:k], mine[h][k+1:]...)
+					}
+					if r < 75 {
+						c.pf("%s%s", tag, c.opFailAtt(h, id))
+					} else {
+						c.pf("%s%s", tag, c.opSettle(h, id))
+					}
+				case r < 90:
+					c.pf("%s%s", tag, c.opInit(h, v))
+				case r < 96:
+					c.pf("%s%s", tag, c.opFetch(h))
+				default:
+					c.pf("%s%s", tag, c.opInflight())
+				}
+			}
+		}(g)
+	}
+	close(start)
+	wg.Wait()
+	for h := 0; h < c16Hashes; h++ {
+		c.pf("final %s", c.opFetch(h))
+	}
+	c.pf("final %s", c.opInflight())
+	c.endCase()
+}
+
 func TestVerifC16(t *testing.T) {
 	out := os.Getenv("VERIF_OUT")
 	if out == "" {
@@ -824,7 +935,12 @@ func TestVerifC16(t *testing.T) {
 					ctx: context.Background(), n: i + 1,
 					rng: rand.New(rand.NewSource(seed*1000003 + int64(i))),
 				}
-				c.genCase(c.rng.Intn(100) < 40)
+				if i%10 == 9 {
+					// every tenth case: concurrent tier
+					c.genConcCase()
+				} else {
+					c.genCase(c.rng.Intn(100) < 40)
+				}
 				c.w.Flush()
 			}
 		}()
